@@ -520,6 +520,7 @@ def rule_r9(ctx) -> RuleResult:
                 raise AnalysisError("{}: pop loop with an unrecognised condition `{}` (inconclusive)".format(dotted, unparse(t)))
             # for every kind on top: does one iteration pop, and does it certainly leave the loop?
             ranges = _int_ranges(ctx, fn)
+            invalidated = []
             pops_kind, ends, may_end = set(), set(), set()
             for k in P.all_kinds(ctx):
                 w = P.TopKind(ctx, dotted, ranges)
@@ -539,14 +540,41 @@ def rule_r9(ctx) -> RuleResult:
                 continue
             # ROOT could be popped: accept only if some kind at which the loop certainly ends is known to be on the stack
             guards = []
+            cg_, affecting_ = P.TopKind._graph(ctx)
             for n in walk_no_nested(fn):
                 if not (isinstance(n, ast.If) and n.lineno < lp.lineno and n.body and isinstance(n.body[-1], (ast.Return, ast.Raise))):
                     continue
                 t = n.test
                 parts = t.values if isinstance(t, ast.BoolOp) and isinstance(t.op, ast.Or) else [t]
+                found = []
                 for v in parts:  # `if not have(K) [or ...]: ...; return`  => K present afterwards
                     if isinstance(v, ast.UnaryOp) and isinstance(v.op, ast.Not):
-                        guards.extend(have_kinds(v.operand))
+                        found.extend(have_kinds(v.operand))
+                if not found:
+                    continue
+                # the presence fact survives only if nothing between the test and the loop can pop:
+                # statements at function top level after the `if` and before the loop
+                killers = []
+                for st2 in fn.body:
+                    if n.end_lineno < st2.lineno < lp.lineno:
+                        if isinstance(st2, ast.If) and st2.body and isinstance(st2.body[-1], (ast.Return, ast.Raise)) and not st2.orelse:
+                            # an early exit: only its test is evaluated on the path that reaches the loop
+                            scope_nodes = [st2.test]
+                        else:
+                            scope_nodes = [st2]
+                        for sn in scope_nodes:
+                            returned = {id(c) for r in ast.walk(sn) if isinstance(r, ast.Return) and r.value is not None
+                                        for c in ast.walk(r.value)}
+                            for c in ast.walk(sn):
+                                if isinstance(c, ast.Call) and id(c) not in returned:
+                                    callees = cg_.callees_in(dotted, c)
+                                    if {x for x in callees if not x.startswith("%")} & affecting_:
+                                        killers.append(c)
+                if killers:
+                    rr.informational.append({"fn": dotted, "guard": unparse(t)[:60], "invalidated_by": unparse(killers[0])[:60]})
+                    invalidated.append((n, killers[0]))
+                else:
+                    guards.extend(found)
             found_guard = any(isinstance(n, ast.For) and n.orelse and n.lineno < lp.lineno and "parser_stack" in unparse(n.iter)
                               and isinstance(n.orelse[-1], ast.Return) for n in walk_no_nested(fn))
             if any(g <= ends or (g & ends and len(g) == 1) for g in guards):
@@ -556,9 +584,13 @@ def rule_r9(ctx) -> RuleResult:
                 rr.ok(dotted, label + " dominated by a successful search of the stack for the node it stops at",
                       {"loop_line": lp.lineno, "guard": "for/else search", "may_end_at": sorted(may_end)})
             else:
+                extra = ""
+                if invalidated:
+                    extra = " (the presence test `{}` is evaluated before `{}`, which can itself close that node)".format(
+                        unparse(invalidated[0][0].test)[:50], unparse(invalidated[0][1])[:40])
                 rr.bad(Finding("C01.R9", P.PARSER, dotted, "pop loop (leaves at {})".format(",".join(sorted(ends)) or "nothing"),
                                "this loop keeps calling _parser_pop until a kind is on top that need not be on the stack, and it does not stop at "
-                               "ROOT: when that node has already been closed the loop pops ROOT and parser_stack[-1] raises IndexError", lp.lineno))
+                               "ROOT: when that node has already been closed the loop pops ROOT and parser_stack[-1] raises IndexError" + extra, lp.lineno))
     return rr
 
 
@@ -614,6 +646,50 @@ def rule_r10(ctx) -> RuleResult:
     return rr
 
 
+R11_INVARIANTS = {
+    ("parser._parser_pop", "node.largs[0]"): "a PARSER_FN node always carries the function name as its first argument list (colon_fn / the retyping "
+                                            "in _parser_pop happen after largs.append)",
+    ("parser._parser_pop", "ctx.parser_stack[-1].children[-1]"): "the node just taken off the stack is the last child of its parent (only _parser_push adds nodes)",
+}
+
+
+def rule_r11(ctx) -> RuleResult:
+    rr = RuleResult("C01.R11", "constant indexes into a node's argument/children lists are guarded", min_instances=15)
+    targets = [("parser", q, f) for q, f in ctx.index.mod("parser").funcs.items()
+               if "." not in q or q.split(".")[0] in ctx.index.mod("parser").classes]
+    targets += [("core", q, ctx.index.mod("core").funcs[q]) for q in ("Wtp._fmt_errmsg",) if q in ctx.index.mod("core").funcs]
+    for mod, q, fn in targets:
+        gw = GuardWalker(None)
+        base_q = mod + "." + q
+
+        def visit(node, facts, handlers, base_q=base_q, gw=gw, mod=mod):
+            if not (isinstance(node, ast.Subscript) and isinstance(node.ctx, ast.Load) and isinstance(node.value, ast.Attribute)
+                    and node.value.attr in ("largs", "children")):
+                return
+            sl = node.slice
+            if not (isinstance(sl, ast.Constant) and isinstance(sl.value, int)) and not (
+                    isinstance(sl, ast.UnaryOp) and isinstance(sl.op, ast.USub) and isinstance(sl.operand, ast.Constant)):
+                return
+            dotted = gw.owner(base_q)
+            base = unparse(node.value)
+            label = unparse(node)
+            relfile = ctx.index.mod(mod).relpath
+            ctx.touched(dotted, relfile)
+            ok = any(f[0] in ("truthy", "minlen") and f[1] == base for f in facts) or caught_by("IndexError", handlers)
+            if ok:
+                rr.ok(dotted, label + "@{}".format(node.lineno), {"fn": dotted, "index": label, "guard": "length/truthiness test"})
+            elif (dotted, label) in R11_INVARIANTS:
+                rr.ok(dotted, label + " (invariant)", {"fn": dotted, "index": label, "invariant": R11_INVARIANTS[(dotted, label)]})
+            else:
+                rr.bad(Finding("C01.R11", relfile, dotted, label,
+                               "indexed without a dominating emptiness test: an open heading (or another node whose list is still empty) makes "
+                               "this raise IndexError out of parse()", node.lineno))
+
+        gw.visit = visit
+        gw.function(fn)
+    return rr
+
+
 def run(ctx) -> list:
     return [rule_r1(ctx), rule_r2(ctx), rule_r3(ctx), rule_r4(ctx), rule_r5(ctx), rule_r6(ctx), rule_r7(ctx), rule_r8(ctx),
-            rule_r9(ctx), rule_r10(ctx)]
+            rule_r9(ctx), rule_r10(ctx), rule_r11(ctx)]
